@@ -156,12 +156,12 @@ def gate(pid=None):
     return bad
 
 
-def build_coq(targets=None, timeout=3000):
+def build_coq(targets=None, timeout=3000, keep_going=False):
     """Full .vo build (never -vos) of the development, under a lock so that concurrent checks
     do not race.  Returns (ok, log)."""
     with locked("coq-build"):
         coq_project()
-        cmd = ["make", "-j", str(NCPU)]
+        cmd = ["make", "-j", str(NCPU)] + (["-k"] if keep_going else [])
         if targets:
             cmd += targets
         r = subprocess.run(["timeout", str(timeout)] + cmd, cwd=COQ, capture_output=True, text=True)
